@@ -2,6 +2,10 @@ CONSTANTS
   Mode = "rt"
   MaxRows = 11
   MaxAt = 40
+  Stride = 7
+  MaxStrides = 0
+  Stride2 = 5
+  MaxStrides2 = 0
 INIT Init
 NEXT Next
 CHECK_DEADLOCK FALSE
